@@ -5,6 +5,8 @@ package main
 
 //@ func (*termMonitor).wait(m, termOnNoHandlers) (sig)
 //@   serves C19
+//@   opt ignore.safe.overflow the handler count changes by the +1/-1 sent by onHandlerStart/onHandlerFinish; overflow needs 2^63 live handlers
+//@   ghost n0 := m.numHandlers
 //@   modifies m.numHandlers, blocked, star(m.handlerChan), star(m.sigChan)
 //@   loop 1 invariant [C19:count_is_sum] m.numHandlers == old(m.numHandlers) + recvsum(m.handlerChan) - old(recvsum(m.handlerChan))
 //@   loop 1 invariant recvcount(m.sigChan) == old(recvcount(m.sigChan))
